@@ -354,7 +354,7 @@ class DirFileSpaceI(Interface):
 class ContentsI(Interface):
     """StringSourceContents: only its file is used by the sites (what the text IS: C14)"""
     attrs = {'as_file': Iface(FsPathI), 'tmp_file_space': Iface(DirFileSpaceI)}
-    methods = {'write_to': Method()}
+    methods = {'write_to': Method(event='contents.write_to')}
 
 
 class StringSourceI(Interface):
@@ -843,7 +843,7 @@ def _concat_string_source(interp, args, kwargs):
     `for part in parts: part.contents().write_to(output)`; what a text is: C14).  Ghost: g_parts = parts."""
     parts = args[0] if args else kwargs['parts']
     r = new_opaque(interp, StringSourceI, 'concat-string-source', preset={'g_parts': _seqs.frozen(parts)})
-    interp.st.emit(CONCAT, parts)
+    interp.st.emit(CONCAT, parts, r)
     return r
 
 
@@ -1272,3 +1272,52 @@ M.contract(P_SSH + ':AtcExecutionInputAdv.resolve', inline=True,
            type(result) is AtcExecutionInput and result[1] == self._environ
            and ((result[0] is None) if self._stdin is None else (result[0].ident == self._stdin.ident))},
            raises_only=())
+
+
+# ============================================================================== the current directory (frame)
+
+import ast as _ast
+import os as _os
+from pyvc import REPO_SRC
+
+
+@M.check('cwd-frame')
+def _cwd_frame(ctx):
+    """The child inherits the current directory of the process: ProcessExecutor.execute passes no `cwd=`
+    (clause `one-process` above: the keyword set is exactly stdin/stdout/stderr/env/timeout/shell), and no other
+    call in the tree passes one except the preprocessor of the test case FILE (outside the property).  The current
+    directory of the process is changed only by: _PartialExecutor._set_cwd_to_act_dir (to the act directory, C04),
+    the `cd` instruction (C11) and the restoring context manager of misc_utils."""
+    root = _os.path.join(REPO_SRC, 'exactly_lib')
+    cwd_kw, chdirs = [], []
+    for dirpath, _dirs, files in _os.walk(root):
+        for fn in files:
+            if fn.endswith('.py'):
+                path = _os.path.join(dirpath, fn)
+                rel = _os.path.relpath(path, root).replace(_os.sep, '/')
+                for n in _ast.walk(_ast.parse(open(path, encoding='utf-8').read(), path)):
+                    if isinstance(n, _ast.Call) and any(k.arg == 'cwd' for k in n.keywords):
+                        cwd_kw.append(rel)
+                    if isinstance(n, _ast.Attribute) and n.attr in ('chdir', 'fchdir'):
+                        chdirs.append(rel)
+    ctx.obligation('no call passes cwd= except the preprocessor of the test-case file',
+                   cwd_kw == ['processing/preprocessor.py'], 'scan', detail={'calls with cwd=': cwd_kw})
+    ctx.obligation('the current directory is changed only by the partial executor (act dir), the `cd` instruction and '
+                   'the cwd-preserving context manager',
+                   sorted(chdirs) == ['execution/partial_execution/impl/executor.py',
+                                      'impls/instructions/multi_phase/change_dir.py',
+                                      'util/file_utils/misc_utils.py'],
+                   'scan', detail={'chdir references': sorted(chdirs)})
+
+
+# ============================================================================== what the ATC process gets (used by the actor contracts)
+
+def stdin_file_is(stdin_file, parts, trace, j):
+    """the file given to the process as stdin is /dev/null when there is no stdin part, else the file of the text
+    source that denotes the concatenation of `parts`"""
+    if len(parts) == 0:
+        return stdin_file is subprocess.DEVNULL
+    if len(parts) == 1:
+        return stdin_file.g_path is parts[0].contents().as_file
+    cs = [e for e in trace if e[0] == CONCAT]
+    return len(cs) == 1 and is_same_seq(cs[0][1], parts, j) and stdin_file.g_path is cs[0][2].contents().as_file
